@@ -26,6 +26,28 @@ T={
  'C19':("fault injection into serialized blobs (truncation, bit flips, splices, framing-preserving structural mutation) with panic/fault/deadlock/resource-bound monitors","harness re-framer checked on unmutated blobs; resource bound 1 GiB live heap during traversals"),
  'C20':("race detector plus per-goroutine transcript comparison against solo runs","transcripts are deterministic functions of the seeded program"),
 }
+L={
+ 'C01':"Every generated input is classified must-accept / must-reject / either by an independent recogniser and Parse's verdict is compared under both kernels and both string modes; two sub-spaces (token sequences, number spellings) are enumerated completely.",
+ 'C02':'Every accepted document is read back through five public routes and compared with the reference tree, with documents built to put every token kind on every index-buffer, block and threshold boundary.',
+ 'C03':'Type, exact integer, correctly rounded double (bit compare) and overflow flag of every literal are compared with a math/big oracle.',
+ 'C04':'Every exposed string is compared byte for byte with the reference unescape, over complete escape tables and a length x alignment sweep, with inputs ending at a guard page.',
+ 'C05':'Hostile inputs under recover(), guard pages, goroutine/channel monitors and process supervision; every returned result is swept by all readers.',
+ 'C06':'The two kernel families are run on the same inputs and their outcomes, tapes and string buffers compared word for word.',
+ 'C07':'Schedules of the two stages are forced at the hand-off hooks while an ownership monitor, a content monitor and a history checker watch the ring; outcomes are compared with the reference and with the unforced schedule.',
+ 'C08':"ParseND's verdict and roots are compared with Parse and the reference on each non-blank line.",
+ 'C09':'The recorded element sequence of ParseNDStream is judged offline under adversarial readers, injected reader errors and hook-forced chunk completion orders.',
+ 'C10':'Marshalled text of fresh and edited tapes must be valid JSON, denote the model document and be a parse+marshal fixed point; non-finite floats must give errors.',
+ 'C11':'Round trips under seeded serializer/destination histories are compared with the model, and blobs are re-read by a worker built without assembly.',
+ 'C12':'Lookups, filtered iteration, bulk accessors and numeric conversions are compared with a model tree and a math/big conversion oracle.',
+ 'C13':'After every Set* call of a seeded history all readers and the tape checker must agree with a model that is updated only where the documentation allows the call.',
+ 'C14':'Every subset of members of small containers is deleted and, after seeded histories, every reader must expose exactly the model; a callback monitor checks the visits.',
+ 'C15':'Every call on reused objects is compared with the same call on fresh objects, across histories of failures, sizes, options and edits.',
+ 'C16':'Readers are snapshotted, the input (or chunk buffer) is overwritten, and every reader is run again; clones and originals are edited independently.',
+ 'C17':'An independent checker asserts the documented tape invariants after every successful Parse/ParseND, after edits and after Deserialize.',
+ 'C18':'Every rendering is compared byte for byte with encoding/json and independently checked for round trip, shortest digits and format.',
+ 'C19':'Mutated blobs (incl. framing-preserving structural mutation) are deserialized under panic, fault, deadlock and resource-bound monitors, and results are swept by all readers.',
+ 'C20':'Goroutines run seeded programs on their own objects together and alone; the race detector and per-goroutine transcripts decide; cold-start trials cover first use.',
+}
 built=set(l.strip() for l in open('/verif/tools/built.txt') if l.strip())
 m={
  "version":1,
@@ -47,7 +69,7 @@ for p in props:
           "evidence_file":"/verif/evidence/%s.json"%i,
           "replay_cmd_template":"./check replay {path}",
           "engine":"verifctl+worker",
-          "level_claimed":{"category":"exploration","text":"held on the executions counted in the evidence file (inputs, boundaries, schedules, histories listed there); nothing is claimed beyond what was executed","design_ref":"DESIGN.md §5 "+i},
+          "level_claimed":{"category":"exploration","text":L.get(i,"")+" Held on the executions counted in the evidence file; nothing is claimed beyond what was executed. Exploration is the right level here: the property quantifies over all inputs/schedules/histories of hand-written SIMD assembly and goroutines, which this family can only sample - densely and at every boundary the code names - with total oracles.","design_ref":"DESIGN.md §5 "+i+" (as built), §10 (seeded changes caught)"},
           "level_note":"trusted base: "+note,
           "technique":"runtime monitoring: "+tech
         })
